@@ -1,4 +1,4 @@
-(* C02 — visibility theorem for every schedule (reader modes wait / single-wait / busy-loop). *)
+(* C02 — visibility theorem for every schedule, all writer and reader modes. *)
 From MV Require Import C02.Model C02.ProofsBase C02.ProofsCtl C02.ProofsFun C02.ProofsFunStep
   C02.ProofsView C02.ProofsViewStep.
 Local Open Scope Z_scope.
@@ -19,10 +19,10 @@ Qed.
 Definition FullInv (c : cfg) (s : sys) : Prop :=
   AInv c s /\ (s_lapped s = false -> BInv c s /\ VInv c s).
 
-Theorem rb_view_invariants P c sched : wf_cfg c -> mo_ok P c = true -> c_rm c <> ROnce ->
+Theorem rb_view_invariants P c sched : wf_cfg c -> mo_ok P c = true ->
   FullInv c (exec sys (step P) (init c) sched).
 Proof.
-  intros Hwf Hmo Hm. apply inv_exec.
+  intros Hwf Hmo. apply inv_exec.
   - intros s t ch s' l [HA HBV] Hs. split; [eapply step_ainv; eauto|].
     intros Hl. pose proof (lapped_mono P s t ch s' l Hs Hl) as Hl0. destruct (HBV Hl0) as [HB HV].
     assert (HB' : BInv c s') by (eapply step_binv; eauto).
@@ -30,13 +30,13 @@ Proof.
   - split; [apply init_ainv|]. intros _. split; [now apply init_binv|now apply init_vinv].
 Qed.
 
-(* every plain read of a slot and of a payload by a reader that receives a message is covered
-   by the reader's view: what the producer stored before the write is visible *)
-Theorem rb_payload_visible_waitbusy P c sched : wf_cfg c -> mo_sufficient P = true -> c_rm c <> ROnce ->
+(* every plain read of a slot, of a payload and of read_cursor by a reader that receives a
+   message is covered by the reader's view: what the producer stored before the write is visible *)
+Theorem rb_payload_visible_all P c sched : wf_cfg c -> mo_sufficient P = true ->
   let s := exec sys (step P) (init c) sched in
   s_lapped s = false -> s_uncov s = 0%nat.
 Proof.
-  intros Hwf Hmo Hm s Hl.
-  destruct (rb_view_invariants P c sched Hwf (mo_sufficient_ok P c Hmo) Hm) as [_ H]. fold s in H.
+  intros Hwf Hmo s Hl.
+  destruct (rb_view_invariants P c sched Hwf (mo_sufficient_ok P c Hmo)) as [_ H]. fold s in H.
   destruct (H Hl) as [_ [Vsh _]]. apply (v_unc _ _ Vsh).
 Qed.
